@@ -46,26 +46,62 @@ def qval(q):
 
 
 MEDIA = ["text/html", "text/plain", "text/*", "*/*", "application/json", "application/*", "text/html;level=1", "image/png", "TEXT/HTML",
-         "text/html;level=1;version=2", "text/html;version=2;level=1", "text/*;format=flowed", "*/*;a=1;b=2", "text/plain;format=flowed;delsp=yes"]
+         "text/html;level=1;version=2", "text/html;version=2;level=1", "text/*;format=flowed", "*/*;a=1;b=2", "text/plain;format=flowed;delsp=yes",
+         # parameter values over the token alphabet, and quoted ones whose content looks like more parameters
+         "text/plain;charset=Shift_JIS", 'text/html;title="a;q=0"', 'application/json;profile="urn:x;version=2"']
 OFF_M = ["text/html", "text/plain", "application/json", "image/png", "application/xml",
          "text/html;level=1", "text/html; version=2; level=1", "text/plain;delsp=yes;format=flowed",
          # optional whitespace before the ';' of a parameter (RFC 9110 5.6.6)
-         "text/html ;level=1", "text/plain ; format=flowed ; delsp=yes"]
+         "text/html ;level=1", "text/plain ; format=flowed ; delsp=yes",
+         "text/plain;charset=Shift_JIS", 'text/html;title="a;q=0"', 'application/json; profile="urn:x;version=2"']
+
+
+def split_params(r):
+    """media type and parameters of a range / offer: ';' separates parameters outside quoted strings only, a quoted value
+    means its content"""
+    parts, cur, inq, esc = [], "", False, False
+    for ch in r:
+        if inq:
+            cur += ch
+            if esc:
+                esc = False
+            elif ch == "\\":
+                esc = True
+            elif ch == '"':
+                inq = False
+        elif ch == '"':
+            inq = True
+            cur += ch
+        elif ch == ";":
+            parts.append(cur)
+            cur = ""
+        else:
+            cur += ch
+    parts.append(cur)
+    ps = []
+    for p_ in parts[1:]:
+        p_ = p_.strip()
+        if not p_:
+            continue
+        k, _, v = p_.partition("=")
+        v = v.strip()
+        if len(v) >= 2 and v[0] == v[-1] == '"':
+            v = v[1:-1].replace('\\"', '"').replace("\\\\", "\\")
+        ps.append(f"{k.strip().lower()}={v.lower()}")
+    return parts[0].strip().lower(), sorted(ps)
 
 
 def m_spec(r):
-    t = r.split(";")[0]
-    params = r.split(";")[1:]
+    t, params = split_params(r)
     ty, su = t.split("/")
     return (ty != "*", su != "*", len(params))  # a wildcard with parameters is still less specific than a full type
 
 
 def m_match(r, o):
-    t = r.split(";")[0].lower()
-    params = sorted(p.strip().lower() for p in r.split(";")[1:])
+    t, params = split_params(r)
     ty, su = t.split("/")
-    oty, osu = o.lower().split(";")[0].strip().split("/")
-    oparams = sorted(p.strip().lower() for p in o.split(";")[1:])  # parameters are a set: their order does not matter
+    ot, oparams = split_params(o)  # parameters are a set: their order does not matter
+    oty, osu = ot.split("/")
     if ty == "*" and su != "*":
         return False
     if ty == "*":
@@ -181,7 +217,12 @@ def check_generic(rec, http, cls, fam, ranges, offers, spec, match):
     if max(g[2]) < lower:
         rec.violation(f"C17/{fam}:not-the-best-quality", f"{hdr!r} offers {offers!r}: chose {got!r} (q {sorted(g[2])}) though another offer has q >= {lower}; {info!r}", case, monitor="evaluator")
         return
-    if all(len(Q) == 1 for o, s, Q in cand):
+    # (werkzeug counts a ';' inside a quoted parameter value as one more parameter when it ranks ranges by specificity;
+    # how such ranges rank among equally specific ones is not judged - their quality and matching are)
+    quoted_semicolon = fam == "mime" and any('"' in r and ";" in r[r.index('"'):r.rindex('"')] for r, q in ranges)
+    if quoted_semicolon:
+        rec.observe("ranges_with_a_semicolon_inside_a_quoted_value")
+    if all(len(Q) == 1 for o, s, Q in cand) and not quoted_semicolon:
         bestq = max(max(Q) for o, s, Q in cand)
         top = [(o, s) for o, s, Q in cand if max(Q) == bestq]
         bs = max(s for o, s in top)
@@ -198,7 +239,8 @@ def check_generic(rec, http, cls, fam, ranges, offers, spec, match):
         elif qq not in Q:
             rec.violation(f"C17/{fam}:quality", f"{hdr!r}: quality({o!r}) = {qq}, most specific matching ranges have {sorted(Q)}", case, monitor="evaluator")
             return
-    check_order(rec, acc, ranges, spec, case, fam)
+    if not quoted_semicolon:
+        check_order(rec, acc, ranges, spec, case, fam)
 
 
 def check_order(rec, acc, ranges, spec, case, fam):
